@@ -224,6 +224,8 @@ class RefServer:
         if res[0] != "ok":
             raise HarnessError("reference child failed on %s: %s" % (kind, res[1]))
         if key is not None:
+            if len(self.cache) >= 30000:
+                self.cache.clear()      # pure function results: dropping them only costs time
             self.cache[key] = res[1]
         return res[1]
 
